@@ -153,6 +153,8 @@ def ctor(case, ctx):
     bad.append(("2-D labels for one axis", lambda: da.DimArray(v, axes=[np.zeros((v.shape[0], 2, 2))] + L[1:], dims=D)))
     a0 = da.DimArray(v, axes=L, dims=D)
     bad.append(("axes setter with a wrong size", lambda: setattr(a0, 'axes', da.Axes([Axis(l, d) for d, l in zip(D, L2)]))))
+    bad.append(("axes setter (list of Axis objects) with a wrong size", lambda: setattr(a0, 'axes', [Axis(l, d) for d, l in zip(D, L2)])))
+    bad.append(("axes setter (list of (name, labels) pairs) with a wrong size", lambda: setattr(a0, 'axes', [(d, l) for d, l in zip(D, L2)])))
     bad.append(("Axes.__setitem__ with a wrong size", lambda: a0.axes.__setitem__(D[0], Axis(L2[0], D[0]))))
     bad.append(("Axis.values setter with a wrong size", lambda: setattr(a0.axes[0], 'values', L2[0])))
     bad.append(("non-str dimension name", lambda: Axis(L[0], 3)))
